@@ -2,3 +2,4 @@ pub mod c01;
 pub mod c02;
 pub mod c08;
 pub mod c12;
+pub mod c09;
